@@ -20,6 +20,7 @@ RULE = ("cases = (frame of any geometry kind with 1-2 geometry columns and a cho
         "hash of (frame, partitioning, npartitions, p)")
 ASSUMPTIONS = ["a raising call claims nothing (counted as 'raised'); a run where every call raised is "
                "inconclusive", "synchronous scheduler (schedules are C18's business)"]
+USE_CONTRACTS = True      # in-situ icontract monitors (vmon/contracts.py)
 DECIDING_COUNTERS = ["packs_returned"]
 
 
@@ -55,7 +56,7 @@ def gen_case(rng, kind):
     spec = gf.frame_spec(rng, cols, n, gf.INDEX_KINDS[int(rng.integers(len(gf.INDEX_KINDS)))])
     spec["geometry"] = "g1"
     return {"spec": spec, "kind": kind, "parts": [int(rng.integers(1, 6)), int(rng.integers(1, 6))],
-            "filter": bool(rng.random() < 0.3), "presort": bool(rng.random() < 0.2),
+            "filter": bool(rng.random() < 0.35), "touch_cache": bool(rng.random() < 0.6), "presort": bool(rng.random() < 0.2),
             "npartitions": int(rng.integers(1, 13)) if rng.random() < 0.4 else int(rng.integers(1, max(2, min(12, n // 3)) + 1)), "p": int(rng.choice([1, 2, 6, 10, 15, 20]))}
 
 
@@ -86,6 +87,10 @@ def check_case(ctx, case):
         with dask.config.set(scheduler="synchronous"):
             ddf = dd.from_pandas(src, npartitions=max(1, min(npin, len(src))), sort=False)
             if case["filter"]:
+                if case.get("touch_cache"):
+                    # per-partition caches of the parent must not leak into the filtered frame
+                    ddf.partition_sindex
+                    ddf.geometry.total_bounds
                 med = float(df["val"].median())
                 ddf = ddf[ddf["val"] >= med]
                 src = src[src["val"] >= med]
